@@ -68,10 +68,13 @@ L['C18'] = dict(modules=['Schc.Properties.C18'], level='proof', technique='Lean 
               T('C18_same_descriptors_partial', 'partial', 'rules whose descriptors all apply to d: all three stages use the same descriptors and the packet round-trips'),
               T('C18_witness', 'witness', 'a rule with a Dw and an Up descriptor for one field is offered for an Up packet and does not round-trip (F-C18-1)')],
     level_text='The full statement is FALSE of the current code (compressor and decompressor ignore direction indicators; decompress has no direction parameter): proved negation with a concrete witness, listed as known finding F-C18-1 and replayed on the real code on every run. Proved: the matcher stage at full strength, and the whole property under the hypothesis that is exactly the complement of the finding\'s domain. Any failing input outside that domain is reported as a violation.')
-L['C20'] = dict(modules=['Schc.Properties.C20'], level='proof', technique='Lean 4 totality theorem (compute-free rules) + correspondence on arbitrary bit strings (compute rules)',
-    theorems=[T('C20_total', 'partial', 'bare decompress is total for every bit string, rules without compute fields'),
-              T('C20_manager_total', 'partial', 'manager decompress gives a buffer or RuleIDMatchError for every bit string, rule sets without compute fields')],
-    level_text='PARTIAL: proved for every bit string and every rule set satisfying the decompressor\'s own type asserts whose rules have no compute fields. For rules with compute fields the totality of the compute functions on partly rebuilt field lists is not yet a theorem (statement kept in Schc.C20_total_compute_statement); that part rests on the correspondence stream (truncations, 1-3 flips, random 0..2000-bit strings, id-only strings, oversized announcements against compute rules on all stacks).')
+L['C20'] = dict(modules=['Schc.Properties.C20'], level='proof', technique='Lean 4 totality theorems: residue walk + totality of the six compute functions at valid stack positions',
+    theorems=[T('C20_total', 'full', 'bare decompress is total for every bit string, rules without compute fields'),
+              T('C20_manager_total', 'full', 'manager decompress gives a buffer or RuleIDMatchError for every bit string, rule sets without compute fields'),
+              T('C20_total_compute', 'full', 'bare decompress is total for rules WITH compute fields at valid stack positions (ComputeStackOK), inputs below the 64 KiB datagram limit'),
+              T('C20_manager_total_compute', 'full', 'manager decompress: buffer or RuleIDMatchError, any well-formed rule set with compute fields'),
+              T('C20_compute_functions', 'full', 'each of the six registered compute functions is total on any field list at a valid position and returns at most 32 bits')],
+    level_text='Proved for every bit string (truncated, flipped, random, empty, id only, oversized announcements - the theorem does not look at how the string was made) and every rule set satisfying the decompressor\'s own type asserts (CdaTypeOK), with or without compute fields. For compute fields the hypotheses are: ComputeStackOK (decidable on the rule\'s id list; only udp._compute_checksum looks at its neighbours) and static bits + input length + 32 per field + 8 <= 2^19 (beyond 64 KiB the real to_bytes(2) raises OverflowError; the model reproduces it). compute_function_sort is modelled as insertion sort; totality is proved for every order of the entries, so it does not depend on that modelling choice.')
 
 L['C07'] = dict(modules=['Schc.Properties.C07'], level='proof', technique='Lean 4 cursor invariants over the CoAP / SCTP walks + generated fixed layouts',
     theorems=[T('C07_header', 'full', 'every header parser, every accepted buffer: fields spell the first header-length bits; header length = total field length <= buffer length'),
